@@ -472,9 +472,7 @@ func loopAt(fn *ssa.Function, b *ssa.BasicBlock) *loopInfo {
 }
 
 // enterBlock transfers control of the top frame to block b.
-func (e *Engine) enterBlock(p *Path, fr *Frame, b *ssa.BasicBlock) {
-	from := fr.block
-	// evaluate phis simultaneously
+func phisOf(b *ssa.BasicBlock) []*ssa.Phi {
 	var phis []*ssa.Phi
 	for _, in := range b.Instrs {
 		if ph, ok := in.(*ssa.Phi); ok {
@@ -483,6 +481,12 @@ func (e *Engine) enterBlock(p *Path, fr *Frame, b *ssa.BasicBlock) {
 			break
 		}
 	}
+	return phis
+}
+
+// phiVals evaluates the phis of b for the edge from -> b.
+func (e *Engine) phiVals(fr *Frame, b, from *ssa.BasicBlock) []Value {
+	phis := phisOf(b)
 	predIdx := -1
 	for i, pr := range b.Preds {
 		if pr == from {
@@ -496,6 +500,113 @@ func (e *Engine) enterBlock(p *Path, fr *Frame, b *ssa.BasicBlock) {
 		}
 		vals[i] = e.get(fr, ph.Edges[predIdx])
 	}
+	return vals
+}
+
+func (e *Engine) enterBlock(p *Path, fr *Frame, b *ssa.BasicBlock) {
+	e.enterBlockVals(p, fr, b, fr.block, e.phiVals(fr, b, fr.block))
+}
+
+// pureJumpBlock: a block with a single predecessor that only computes side-effect-free,
+// non-panicking values and jumps to j.
+func pureJumpBlock(b, j *ssa.BasicBlock) bool {
+	if len(b.Preds) != 1 || len(b.Succs) != 1 || b.Succs[0] != j {
+		return false
+	}
+	for _, in := range b.Instrs {
+		switch x := in.(type) {
+		case *ssa.DebugRef, *ssa.Jump, *ssa.Convert, *ssa.ChangeType, *ssa.Extract, *ssa.Field:
+		case *ssa.BinOp:
+			if x.Op == token.QUO || x.Op == token.REM {
+				return false
+			}
+		case *ssa.UnOp:
+			if x.Op == token.MUL || x.Op == token.ARROW {
+				return false
+			}
+		default:
+			return false
+		}
+	}
+	return true
+}
+
+func canIte(a, b Value) bool {
+	switch a.(type) {
+	case *PtrV, *FuncV, *OpaqueV, nil:
+		return false
+	}
+	switch b.(type) {
+	case *PtrV, *FuncV, *OpaqueV, nil:
+		return false
+	}
+	ok := true
+	func() {
+		defer func() {
+			if recover() != nil {
+				ok = false
+			}
+		}()
+		zipLeaves(a, b, func(x, y *Term) *Term {
+			if x.Sort != y.Sort {
+				ok = false
+			}
+			return x
+		})
+	}()
+	return ok
+}
+
+// tryMerge performs if-conversion of triangles and diamonds whose arms are pure: the two arms
+// are executed on one path and the phis of the join block become ite terms.
+func (e *Engine) tryMerge(p *Path, fr *Frame, c *Term, tb, fb *ssa.BasicBlock) bool {
+	cur := fr.block
+	var j *ssa.BasicBlock
+	var tFrom, fFrom *ssa.BasicBlock
+	switch {
+	case pureJumpBlock(tb, fb):
+		j, tFrom, fFrom = fb, tb, cur
+	case pureJumpBlock(fb, tb):
+		j, tFrom, fFrom = tb, cur, fb
+	case len(tb.Succs) == 1 && pureJumpBlock(tb, tb.Succs[0]) && pureJumpBlock(fb, tb.Succs[0]):
+		j, tFrom, fFrom = tb.Succs[0], tb, fb
+	default:
+		return false
+	}
+	if li := loopAt(fr.fn, j); li != nil {
+		if li.body[tFrom] != li.body[fFrom] {
+			return false
+		}
+	}
+	for _, side := range []*ssa.BasicBlock{tFrom, fFrom} {
+		if side == cur {
+			continue
+		}
+		for _, in := range side.Instrs {
+			switch in.(type) {
+			case *ssa.DebugRef, *ssa.Jump:
+				continue
+			}
+			if forks := e.execInstr(p, fr, in, nil); len(forks) > 0 {
+				execFail("internal: pure block forked")
+			}
+		}
+	}
+	tv := e.phiVals(fr, j, tFrom)
+	fv := e.phiVals(fr, j, fFrom)
+	vals := make([]Value, len(tv))
+	for i := range tv {
+		if !canIte(tv[i], fv[i]) {
+			return false
+		}
+		vals[i] = valueIte(c, tv[i], fv[i])
+	}
+	e.enterBlockVals(p, fr, j, tFrom, vals)
+	return true
+}
+
+func (e *Engine) enterBlockVals(p *Path, fr *Frame, b, from *ssa.BasicBlock, vals []Value) {
+	phis := phisOf(b)
 	li := loopAt(fr.fn, b)
 	var spec *LoopSpec
 	if li != nil && fr.ct != nil {
@@ -898,6 +1009,9 @@ func (e *Engine) execInstr(p *Path, fr *Frame, in ssa.Instruction, onExit exitFn
 		}
 		if c == False {
 			e.enterBlock(p, fr, fb)
+			return nil
+		}
+		if e.tryMerge(p, fr, c, tb, fb) {
 			return nil
 		}
 		p2 := p.clone()
